@@ -42,7 +42,10 @@ type Config struct {
 	FieldConst func(v ssa.Value, field string) (int64, bool)
 	// GlobalName: the identity of a package-level variable ("" = not shared between the sides).
 	GlobalName func(g *ssa.Global) string
-	MaxSteps   int
+	// NonNegField: loads of this field are never negative (an invariant of the port's data structure, established by
+	// the caller over all stores to the field).
+	NonNegField func(fa *ssa.FieldAddr) bool
+	MaxSteps    int
 }
 
 // Diff is a located difference at aligned events.
@@ -219,6 +222,7 @@ type walker struct {
 	seen    map[string]bool
 	calls   map[[2]*ssa.Function]bool
 	stepped map[*ssa.Function]bool
+	nonNeg  map[int]bool // load terms of fields that are never negative
 }
 
 // Compare walks fa (the port, side A) and fb (the reference, side B).
@@ -989,7 +993,14 @@ func (w *walker) pure(p *path, f *frame, v ssa.Value) (int, string) {
 					}
 				}
 			}
-			return w.tab.mk("load", fmt.Sprint(p.epoch), x), ""
+			ld := w.tab.mk("load", fmt.Sprint(p.epoch), x)
+			if fa, ok := t.X.(*ssa.FieldAddr); ok && w.cfg.NonNegField != nil && w.cfg.NonNegField(fa) {
+				if w.nonNeg == nil {
+					w.nonNeg = map[int]bool{}
+				}
+				w.nonNeg[ld] = true
+			}
+			return ld, ""
 		case token.NOT:
 			return w.not(x), ""
 		case token.SUB:
@@ -1265,6 +1276,15 @@ func (w *walker) decide(p *path, c int) (bool, bool) {
 	if len(sys) == 0 {
 		return false, false
 	}
+	// invariants of the port's data structure: fields that are never negative
+	var nn []int
+	for id := range w.nonNeg {
+		nn = append(nn, id)
+	}
+	sort.Ints(nn)
+	for _, id := range nn {
+		sys = append(sys, linarith.GE(w.lin(p, id, 0), linarith.Const(0)))
+	}
 	// disequalities sharpen a one-sided bound: x != y with x >= y gives x >= y+1 (integers)
 	for round := 0; round < 2; round++ {
 		for _, f := range p.facts {
@@ -1289,6 +1309,16 @@ func (w *walker) decide(p *path, c int) (bool, bool) {
 	}
 	if ng, ok := w.linAtom(p, c, false); ok && sys.ImpliesAll(ng...) {
 		return false, true
+	}
+	// an (in)equality is refuted by a strict order between its sides: 0 < x decides x == 0
+	if tm := w.tab.terms[c]; tm.kind == "bin" && len(tm.args) == 2 {
+		parts := strings.SplitN(tm.aux, " ", 2)
+		if len(parts) == 2 && (parts[1] == "sword" || parts[1] == "int32" || parts[1] == "int16" || parts[1] == "int8") && (parts[0] == "==" || parts[0] == "!=") {
+			x, y := w.lin(p, tm.args[0], 0), w.lin(p, tm.args[1], 0)
+			if sys.Implies(linarith.LT(x, y)) || sys.Implies(linarith.GT(x, y)) {
+				return parts[0] == "!=", true
+			}
+		}
 	}
 	return false, false
 }
